@@ -304,6 +304,57 @@ pub fn run_item(prop: &str, tier: &str, idx: usize, only: Option<&Value>) -> MRe
         }
         res.count("trees", 1);
     }
+    // one tree with a procfs instance mounted inside the root (first item only): magic-links met on the way must end the lookup
+    // with ELOOP exactly where the kernel's RESOLVE_NO_MAGICLINKS does. Process-specific inodes differ between the two workers
+    // and the oracle (three different pids), so outcomes are compared by class (ok / errno) here.
+    if idx == 0 && only.map(|o| o["tree_idx"].as_u64() == Some(999_999)).unwrap_or(true) {
+        clear_dir(&root_out)?;
+        let t = TreeSpec::default().dir("a").dir("p").link("l", "p/self/cwd").link("l2", "/p/self/root").link("l3", "p/sys/kernel").file("f");
+        t.build(&root_out)?;
+        let (src, tgt, typ) = (cs("proc"), cs(&format!("{}/p", root_out)), cs("proc"));
+        if unsafe { libc::mount(src.as_ptr(), tgt.as_ptr(), typ.as_ptr(), 0, std::ptr::null()) } != 0 { return mach(format!("mount procfs inside the root: errno {}", errno())); }
+        let snap = snapshot(&root_out)?;
+        let inside = inodes(&snap);
+        let paths = ["p/self/cwd", "p/self/root", "p/self/exe", "p/self/cwd/a", "p/self/root/a", "p/thread-self/cwd", "p/self/fd/0", "p/1/cwd", "p/self", "p/sys/kernel/ostype", "p/uptime", "p/..", "p/../a",
+                     "l", "l/a", "l2", "l2/a", "l3/ostype", "p/self/task/../cwd", "p/self/ns/mnt", "p/nonexistent", "p/self/cwd/", "a/../p/self/cwd"];
+        let mut cases: Vec<LCase> = Vec::new();
+        for p in paths { for c in lookup_ops(p, &[O_PATH, O_RDONLY | O_NONBLOCK], &[0], false) { if c.op.name != "readlink" { cases.push(c); } } }
+        if let Some(o) = only { let want: Op = serde_json::from_value(o["op"].clone()).map_err(|e| Mach(format!("bad replay op: {}", e)))?; cases.retain(|c| c.op == want); }
+        let ops: Vec<Op> = cases.iter().map(|c| c.op.clone()).collect();
+        let ko = k.call(ops.clone())?;
+        let eo = e.call(ops)?;
+        let class = |w: &Want| match w { Want::Err(e) => errname(*e), Want::Text(t) if t.starts_with("PANIC") => "PANIC".to_string(), _ => "ok".to_string() };
+        for (i, c) in cases.iter().enumerate() {
+            let mut want = kernel_oracle(rootfd.as_raw_fd(), c);
+            res.evaluations += 2; res.nontrivial += 1;
+            for (bk, obs, wk) in [("K", &ko[i], &mut k), ("E", &eo[i], &mut e)] {
+                let mut got = got_of(obs);
+                let mut tries = 0;
+                while class(&got) != class(&want) && (is_transient(&got) || is_transient(&want)) && tries < 20 { got = got_of(&wk.one(c.op.clone())?); want = kernel_oracle(rootfd.as_raw_fd(), c); tries += 1; }
+                res.outcome(format!("procfs-in-tree:{}:{}", c.op.name, class(&got)));
+                let replay = json!({"engine": "lookup", "item": 0, "tree_idx": 999_999, "tree": "a/ p/=procfs l->p/self/cwd l2->/p/self/root l3->p/sys/kernel f", "path": c.op.path, "op": c.op, "backend": bk});
+                if let Some(fd) = &obs.fd {
+                    if fd.fstype != PROC_MAGIC && !inside.contains(&(fd.dev, fd.ino)) {
+                        res.violate(format!("{}:{}:escape", bk, c.op.name), format!("ESCAPE: tree with procfs mounted at p: {} returned an object outside the root ({:?})", c.op.brief(), fd.procpath), replay.clone());
+                        continue;
+                    }
+                }
+                // magic-links whose text is not a path (pipe:[N], mnt:[N]) are a class of their own
+                let pclass = if matches!(c.op.path.as_deref(), Some("p/self/fd/0") | Some("p/self/ns/mnt")) { "pseudo-magiclink" } else { "path" };
+                if prop == "C01" && class(&got) != class(&want) {
+                    res.violate(format!("{}:{}:procfs-in-tree:{}:{}->{}", bk, c.op.name, pclass, class(&want), class(&got)), format!("tree with procfs mounted at p: {} on backend {}: kernel in-root resolution gives {}, libpathrs gives {} ({})", c.op.brief(), bk, class(&want), class(&got), obs.msg.clone().unwrap_or_default()), replay.clone());
+                }
+            }
+            if prop == "C04" && class(&got_of(&ko[i])) != class(&got_of(&eo[i])) {
+                let pclass = if matches!(c.op.path.as_deref(), Some("p/self/fd/0") | Some("p/self/ns/mnt")) { "pseudo-magiclink" } else { "path" };
+                res.violate(format!("lookup:{}:procfs-in-tree:{}:K={} E={}", c.op.name, pclass, class(&got_of(&ko[i])), class(&got_of(&eo[i]))), format!("tree with procfs mounted at p: {}: kernel backend gives {}, emulated backend gives {}", c.op.brief(), class(&got_of(&ko[i])), class(&got_of(&eo[i]))),
+                    json!({"engine": "lookup", "item": 0, "tree_idx": 999_999, "path": c.op.path, "op": c.op}));
+            }
+        }
+        let tgt = cs(&format!("{}/p", root_out));
+        unsafe { libc::umount2(tgt.as_ptr(), libc::MNT_DETACH) };
+        res.count("trees", 1);
+    }
     res.states = seen_states.len() as u64;
     // nothing outside the root may have changed during a sweep of pure lookups
     let outside_after = snapshot_outside()?;
